@@ -8,6 +8,7 @@ import (
 	"github.com/openziti/storage/boltz"
 	"go.etcd.io/bbolt"
 	"os"
+	"time"
 	"verif/harness/internal/core"
 	"verif/harness/internal/memsym"
 	"verif/harness/internal/ql"
@@ -309,6 +310,12 @@ func init() {
 
 func runC12(c *core.Ctx, idx int) {
 	r := c.Rand()
+	// a quarter of the cases run with the process-wide query-debug switch on: grouping and verdicts must not depend on it
+	if idx%4 == 1 {
+		ast.EnableQueryDebug.Store(true)
+		defer ast.EnableQueryDebug.Store(false)
+		c.Count("cases_with_query_debug_on", 1)
+	}
 	all := c12Skels(c12Max(c.Tier))
 	nChunks := (len(all) + c12Chunk - 1) / c12Chunk
 	tbl := memsym.NewTable()
@@ -696,6 +703,10 @@ func c12Respell(c *core.Ctx, r *core.Rand, tbl *memsym.Table) {
 	sym := func(s string) ql.Stream { return ql.Stream{ql.T(s)} }
 	num := func(s string) ql.Stream { return ql.Stream{ql.T(s)} }
 	str := func(s string) ql.Stream { return ql.Stream{ql.T(ql.Lit(s))} }
+	dt := func(s string) ql.Stream {
+		return ql.Stream{ql.T("datetime("), ql.G(ql.Opt), ql.T(s), ql.G(ql.Opt), ql.T(")")}
+	}
+	tbl.Types["dt"] = ast.NodeTypeDatetime
 	atoms := []ql.Stream{
 		ql.Cmp(sym("na"), "=", num("1")), ql.Cmp(sym("na"), "!=", num("2")), ql.Cmp(sym("nb"), "<", num("3")), ql.Cmp(sym("nb"), "<=", num("2")), ql.Cmp(sym("nc"), ">", num("-1")), ql.Cmp(sym("f"), ">=", num("1.5")),
 		ql.Cmp(sym("s"), "=", str("ab")), ql.Cmp(sym("pa"), "=", ql.Stream{ql.K("true")}), ql.Cmp(sym("pb"), "!=", ql.Stream{ql.K("false")}), ql.Cmp(sym("s"), "=", ql.Stream{ql.K("null")}), ql.Cmp(sym("nd"), "!=", ql.Stream{ql.K("null")}),
@@ -707,6 +718,10 @@ func c12Respell(c *core.Ctx, r *core.Rand, tbl *memsym.Table) {
 		ql.Cmp(ql.Func("anyOf", sym("tags")), "=", str("or")), ql.Cmp(ql.Func("allOf", sym("tags")), "!=", str("not")), ql.Cmp(ql.Func("count", sym("tags")), ">", num("1")),
 		ql.Func("isEmpty", sym("tags")), sym("pc"), {ql.K("true")}, {ql.K("false")},
 		ql.WordOp(ql.Func("anyOf", sym("tags")), "in", ql.List([]ql.Stream{str("in"), str("x")})),
+		// datetime literals: whitespace is admitted inside their parentheses
+		ql.Cmp(sym("dt"), "=", dt("2021-06-15T12:30:00Z")), ql.Cmp(sym("dt"), "<", dt("2022-01-01T00:00:00Z")), ql.Cmp(sym("dt"), ">=", dt("2021-06-15T12:30:00.5+02:00")),
+		ql.WordOp(sym("dt"), "between", ql.Cat(dt("2020-01-01T00:00:00Z"), ql.Stream{ql.G(ql.Req), ql.K("and"), ql.G(ql.Req)}, dt("2022-01-01T00:00:00Z"))),
+		ql.WordOp(sym("dt"), "not in", ql.List([]ql.Stream{dt("2021-06-15T12:30:00Z"), dt("1999-12-31T23:59:59Z")})),
 	}
 	rows := make([]*memsym.Row, 12)
 	for i := range rows {
@@ -724,6 +739,9 @@ func c12Respell(c *core.Ctx, r *core.Rand, tbl *memsym.Table) {
 		}
 		if r.P(0.8) {
 			row.Vals["f"] = core.Pick(r, []float64{0, 1.5, 2, -1})
+		}
+		if r.P(0.8) {
+			row.Vals["dt"] = core.Pick(r, []time.Time{time.Date(2021, 6, 15, 12, 30, 0, 0, time.UTC), time.Date(2019, 1, 1, 0, 0, 0, 0, time.UTC), time.Date(2021, 6, 15, 10, 30, 0, 500000000, time.UTC), time.Date(2030, 1, 1, 0, 0, 0, 0, time.UTC)})
 		}
 		var tags []any
 		for _, t := range core.Subset(r, []string{"or", "not", "in", "x"}, 0.4) {
